@@ -154,6 +154,24 @@ def run(pid, tier, seed, gate, replay=None):
                                                    note=f"oracle search over {len(scripts)} scripts found no failing input"))
         violations.append(dict(replay=rp, nofail=True, what=gate["failed"]))
     extra_cov = {}
+    if pid == "C18" and not replay and not failing:
+        # multi-threaded: lookups, short holds and drops of one key from several threads while a writer keeps the single
+        # LRU shard under pressure; the key is never removed or replaced, so a held handle may never become outdated
+        C.build_harness(["pinrace"])
+        runs, bad = [], None
+        for readers, cap in ([(4, 2), (2, 2), (6, 3), (3, 1)] if tier == "thorough" else [(4, 2), (2, 2)]):
+            rc, out = C.sh([os.path.join(C.BIN, "pinrace"), str(readers), str(cap), "1500" if tier == "thorough" else "400"], timeout=120)
+            kvs = dict(t.split("=") for t in out.split() if "=" in t)
+            runs.append(dict(readers=readers, capacity=cap, **kvs))
+            if rc != 0 or int(kvs.get("violations", "1")) > 0:
+                bad = bad or (readers, cap, out.strip())
+        extra_cov["multi_threaded_pin_runs"] = runs
+        if bad:
+            rp = C.write_replay(pid, seed, "pinrace", dict(property=pid, stream="pinrace (threads)", script=f"pinrace {bad[0]} {bad[1]} 400",
+                                                          impl_obs=[bad[2]], oracle=dict(failed_at=0, what="held handle became outdated"), broken=None))
+            violations.append(dict(replay=rp, what=f"LRU, {bad[0]} reader threads, capacity {bad[1]}: a handle obtained by get() became outdated while "
+                                                  f"it was held although the key is never removed or replaced - the entry was evicted while "
+                                                  f"looked up and held ({bad[2]})"))
     if pid == "C17" and not replay:
         # the in-flight table is keyed by (hash, key) as well: colliding keys must not be coalesced
         from . import fetch as F
